@@ -3,8 +3,10 @@ package main
 import (
 	"encoding/json"
 	"fmt"
+	"os"
 	"math/rand"
 	"sort"
+	"strconv"
 	"strings"
 	"sync"
 	"time"
@@ -16,7 +18,7 @@ import (
 // Domain "loc": histories of Location operations over several locations
 // (indexed and linear state, MemStorage, SimpleLocationProvider).
 
-var locProfiles = []string{"search", "dispatch", "lifecycle", "cascade", "acl", "capacity", "forest", "expiry", "query", "events", "durable", "cronhooks"}
+var locProfiles = []string{"search", "dispatch", "lifecycle", "cascade", "acl", "capacity", "forest", "expiry", "query", "events", "durable", "cronhooks", "fuzz"}
 
 func init() {
 	register("loc", &Domain{Gen: genLoc, Exec: execLoc})
@@ -109,6 +111,7 @@ func (lg *locGen) op() map[string]interface{} {
 		//            (addrule weight is used for rules with conditions/actions; last column: process)
 		"cache":     {26, 12, 8, 5, 8, 3, 12, 10, 4, 1, 3, 2, 3, 0, 0, 0, 0},
 		"cronhooks": {14, 34, 8, 14, 2, 2, 2, 3, 3, 3, 0, 0, 1, 8, 0, 0, 6},
+		"fuzz":      {1, 1, 1, 1, 1, 1, 1, 1, 1, 1, 1, 1, 1, 1, 1, 1, 1},
 		"durable":   {30, 12, 10, 5, 6, 2, 10, 5, 4, 1, 2, 1, 2, 9, 0, 0, 0},
 		"events":    {22, 26, 4, 4, 1, 1, 2, 2, 5, 1, 0, 0, 0, 3, 0, 0, 40},
 	}[lg.profile]
@@ -368,6 +371,12 @@ func genLocCase(r *rand.Rand, prof string) Case {
 		nops = 14 + r.Intn(8)
 	}
 	var ops []interface{}
+	if prof == "fuzz" {
+		for k := 0; k < 8+r.Intn(6); k++ {
+			ops = append(ops, lg.fuzzOp()...)
+		}
+		return Case{"profile": prof, "locs": locs, "ops": ops, "child": true}
+	}
 	if nlocs > 1 && prof != "forest" {
 		ops = append(ops, map[string]interface{}{"loc": "L0", "op": "setparents", "parents": []interface{}{"L1"}})
 	}
@@ -494,6 +503,9 @@ func bssJSON(bss []core.Bindings) []interface{} {
 }
 
 func execLocCase(c Case) {
+	if os.Getenv("RH_CHILD") == "1" {
+		journalPath = str(c["journal"])
+	}
 	w := &locWorld{stores: map[string]core.Storage{}, kinds: map[string]string{}, maxes: map[string]int{},
 		fails:    map[string]*failStorage{},
 		cronners: map[string]*recCronner{},
@@ -544,7 +556,8 @@ func execLocCase(c Case) {
 		}
 	}
 	var done []interface{}
-	for _, oi := range list(c["ops"]) {
+	for k, oi := range list(c["ops"]) {
+		journal(k)
 		o := obj(oi)
 		if d := num(o["sleep"]); d > 0 {
 			time.Sleep(time.Duration(d) * time.Second)
@@ -779,6 +792,10 @@ func execLoc(cases []Case) []Case {
 		sem <- true
 		go func(c Case) {
 			defer func() { <-sem; wg.Done() }()
+			if boolean(c["child"]) && os.Getenv("RH_CHILD") != "1" {
+				execLocInChild(c)
+				return
+			}
 			execLocCase(c)
 		}(c)
 	}
@@ -787,3 +804,42 @@ func execLoc(cases []Case) []Case {
 }
 
 var _ = sort.Strings
+
+// execLocInChild: run the case in a child process; on a crash or hang the
+// journal tells which operation was running: it gets the observation class
+// "crash"/"hang" and the rest of the history is cut off.
+func execLocInChild(c Case) {
+	f, err := os.CreateTemp("", "rh-journal-")
+	if err != nil {
+		execLocCase(c)
+		return
+	}
+	path := f.Name()
+	f.Close()
+	defer os.Remove(path)
+	os.Setenv("RH_JOURNAL_NEXT", path) // (documentation only; the path is passed through the case)
+	c["journal"] = path
+	runInChild("loc-"+str(c["profile"]), c, func(c Case, kind string) {
+		k := 0
+		if b, err := os.ReadFile(path); err == nil {
+			k, _ = strconv.Atoi(strings.TrimSpace(string(b)))
+		}
+		ops := list(c["ops"])
+		if k >= len(ops) {
+			k = len(ops) - 1
+		}
+		// the child's observations are lost: re-run the prefix in-process to recover them
+		prefix := Case{"profile": c["profile"], "locs": c["locs"], "ops": ops[:k]}
+		execLocCase(prefix)
+		cls := "crash"
+		if kind == "hang" {
+			cls = "hang"
+		}
+		bad := obj(ops[k])
+		bad["res"] = map[string]interface{}{"ok": false, "class": cls}
+		now := time.Now().Unix()
+		bad["t"], bad["t2"] = now, now
+		c["ops"] = append(list(prefix["ops"]), bad)
+	})
+	delete(c, "journal")
+}
